@@ -1,5 +1,6 @@
 import Rbacx.Generated
 import Rbacx.Proofs.PyLibLemmas
+import Rbacx.Proofs.RawDict
 import Rbacx.Model.PolicySet
 import Rbacx.Proofs.CompiledTier
 /-!
@@ -205,47 +206,6 @@ theorem match_actions (rule action : PyVal) : Src.match_actions rule action = .b
 def rawDict (r : Raw) : PyVal :=
   .dict [("decision", .str r.decision), ("reason", .str r.reason), ("rule_id", r.ruleId), ("last_rule_id", r.lastRuleId),
          ("policy_id", r.policyId), ("obligations", .list r.obligations)]
-
-theorem is_applicable_aux (lid rid : PyVal) (reason : String) :
-    (if (Py.isNone lid).truthy then
-       (if (Py.pnot (Py.isInstance rid "str")).truthy then PyVal.bool false
-        else por (Py.ne rid (.str "")) (Py.contains (.list [.str "matched", .str "explicit_deny"]) (.str reason)))
-     else
-       (if (Py.pnot (Py.isInstance lid "str")).truthy then PyVal.bool false
-        else por (Py.ne lid (.str "")) (Py.contains (.list [.str "matched", .str "explicit_deny"]) (.str reason)))) =
-      PyVal.bool (match (if lid.isNone then rid else lid) with
-        | .str s => s != "" || reason == "matched" || reason == "explicit_deny"
-        | _ => false) := by
-  have key : ∀ v : PyVal,
-      (if (Py.pnot (Py.isInstance v "str")).truthy then PyVal.bool false
-        else por (Py.ne v (.str "")) (Py.contains (.list [.str "matched", .str "explicit_deny"]) (.str reason))) =
-      PyVal.bool (match v with
-        | .str s => s != "" || reason == "matched" || reason == "explicit_deny"
-        | _ => false) := by
-    intro v
-    cases v with
-    | str s =>
-      by_cases hs : s = ""
-      · subst hs
-        by_cases h1 : reason = "matched"
-        · subst h1; rfl
-        · by_cases h2 : reason = "explicit_deny"
-          · subst h2; rfl
-          · have e1 : (reason == "matched") = false := by simpa using h1
-            have e2 : (reason == "explicit_deny") = false := by simpa using h2
-            have e3 : ("matched" == reason) = false := by simpa using fun e => h1 e.symm
-            have e4 : ("explicit_deny" == reason) = false := by simpa using fun e => h2 e.symm
-            simp [Py.pnot, Py.isInstance, Py.ne, Py.contains, Py.iter, PyVal.isStr, PyVal.truthy, pyEq, por, e1, e2, e3, e4]
-      · have e0 : (s == "") = false := by simpa using hs
-        simp [Py.pnot, Py.isInstance, Py.ne, PyVal.isStr, PyVal.truthy, pyEq, por, e0, bne]
-    | none => rfl
-    | bool b => rfl
-    | int n => rfl
-    | float f => rfl
-    | list l => rfl
-    | dict d => rfl
-    | dt a m => rfl
-  cases lid <;> simp only [Py.isNone, PyVal.isNone, truthy_bool, Bool.false_eq_true, if_false, if_true] <;> exact key _
 
 theorem is_applicable (r : Raw) : Src.is_applicable (rawDict r) = .bool (isApplicable r) :=
   is_applicable_aux r.lastRuleId r.ruleId r.reason
